@@ -3,7 +3,7 @@
   (`partial` only in the I/O loop; no theorem mentions anything in this file.)
 -/
 import BartiqModel
-import Generated
+import Generated.Stages
 open Bartiq Sexp
 
 def errSexp (e : Err) : Sexp := l [a "err", a e.kind, a (e.msg.replace " " "_" |>.replace "(" "[" |>.replace ")" "]")]
